@@ -48,6 +48,7 @@ type Universe struct {
 	globalFacts   map[string]*globalFact
 	globalWritten map[string]string
 	fieldWritten  map[string]string
+	inlined       map[string]bool // functions inlined into a function under contract during this run
 }
 
 func repoDir() string {
@@ -86,6 +87,7 @@ func loadUniverse() (*Universe, error) {
 		typeByID:  map[int]types.Type{},
 		funcIDs:   map[string]int{},
 		loops:     map[*ssa.Function][]*LoopInfo{},
+		inlined:   map[string]bool{},
 	}
 	env := append(os.Environ(), "GOFLAGS=-mod=mod", "GOPROXY=off", "GOSUMDB=off", "GOTOOLCHAIN=local")
 	cfg := &packages.Config{Mode: packages.LoadAllSyntax, Dir: u.repo, BuildFlags: []string{"-tags=verif"}, Env: env}
